@@ -32,7 +32,12 @@ def model_of(chan, dn, kw):
     pn = x + y + z
     if pn == 0:
         return PauliErrorModel(1.0, 0.0, 0.0, deformation_name=dn, deformation_kwargs=dict(kw)), 0.0
-    return PauliErrorModel(x / pn, y / pn, z / pn, deformation_name=dn,
+    # a rate of exactly 0 or 1 is often written as an integer literal (and JSON
+    # input files give "r_x": 0): both spellings are legal
+    def lit(v):
+        f = v / pn
+        return int(f) if f in (0.0, 1.0) and (x + 2 * y + 3 * z) % 2 == 0 else f
+    return PauliErrorModel(lit(x), lit(y), lit(z), deformation_name=dn,
                            deformation_kwargs=dict(kw)), pn / 10
 
 
